@@ -6,7 +6,7 @@ T='''You work ONLY inside the git worktree {wt} (a checkout of the Go library Te
 
 Below is a semantic property of this library that holds on the current tree. Your task: write TWO independent code changes to the LIBRARY (not the tests), each a CLEAN-UP COMMIT IN ONE OF THE STYLES BELOW THAT GOES SUBTLY WRONG: almost all of the diff is a faithful, behaviour-preserving rewrite, but one small slip inside it breaks the property for some input, schedule or history. Styles (use a different one for each change, and pick styles that fit the code the property is anchored in):
  - performance tuning: hoisting a `len(x)` / field read / method call out of a loop or critical section where it CAN change in between, caching a value across a mutation, pre-sizing with the wrong length-vs-capacity, reusing a buffer / slice / map across calls or iterations (aliasing), a fast path for the empty / single-element / already-sorted case that returns something subtly different (nil vs empty, the input itself instead of a copy, a skipped side effect);
- - linter-style simplifications: removing a "redundant" nil / length / bounds check that is not redundant for one input, merging two conditions, `if x { return true }; return false` collapsed with the wrong polarity, removing a "dead" store that a closure or deferred function still reads, dropping an "unused" parameter or result and shifting the remaining arguments, removing an `else` so that a statement now also runs on the other path;
+ - linter-style simplifications: removing a "redundant" nil / length / bounds check that is not redundant for one input, merging two conditions, `if x {{ return true }}; return false` collapsed with the wrong polarity, removing a "dead" store that a closure or deferred function still reads, dropping an "unused" parameter or result and shifting the remaining arguments, removing an `else` so that a statement now also runs on the other path;
  - exported thin wrapper over an unexported implementation (or folding one back): the wrapper passes the wrong fixed value for an extra parameter, the general form treats the zero value of the new parameter differently from the old code, the fold loses a `defer`, a lock, a closed-check or an early return that lived in the wrapper;
  - additive API growth by generalising existing code: a new `...WithOptions` / `Try...` / `...N` function is added and the existing function is re-expressed through it, but for one corner (nil option, zero timeout, empty input, negative count, an error that used to be ignored) the old entry point now behaves differently;
  - standard-library generics adopted where they are NOT exactly equivalent: `slices.Clone` / `maps.Clone` (nil-ness, spare capacity), `slices.Delete` / `slices.Insert` / `slices.Compact` (work in place on the caller's backing array, zero the tail), `slices.Sort` / `slices.SortFunc` (not stable), `slices.Equal` on nil vs empty, `maps.Keys`-style iteration order, `slices.Index` (first occurrence only) where all occurrences were handled;
